@@ -153,6 +153,8 @@ pub struct Book {
 
 #[derive(Clone, Debug, Default)]
 pub struct Universe {
+    /// heights below this one are not observed (0 except for chains mined to a great height)
+    pub from_height: u64,
     pub max_height: u64,
     pub block_hashes: BTreeSet<String>,
     pub tx_hashes: BTreeSet<String>,
@@ -165,6 +167,7 @@ pub struct Universe {
 impl Universe {
     pub fn merge(&mut self, o: &Universe) {
         self.max_height = self.max_height.max(o.max_height);
+        self.from_height = self.from_height.max(o.from_height);
         self.block_hashes.extend(o.block_hashes.iter().cloned());
         self.tx_hashes.extend(o.tx_hashes.iter().cloned());
         self.inscription_ids.extend(o.inscription_ids.iter().cloned());
